@@ -125,4 +125,12 @@ theorem toInt_ofInt_of_fits (n : Int) (h : fits n = true) : (Int64.ofInt n).toIn
   rw [fits_iff] at h
   exact Int64.toInt_ofInt_of_le (by omega) (by omega)
 
+/-- `checkedPow` is exactly "the power, if it is an `i64`" (the early exit is redundant). -/
+theorem checkedPow_spec (a : Int64) (n : Nat) :
+    checkedPow a n = if fits (a.toInt ^ n) then some (Int64.ofInt (a.toInt ^ n)) else none := by
+  unfold checkedPow
+  by_cases h : 64 ≤ n ∧ 2 ≤ a.toInt.natAbs
+  · simp [h, pow_not_fits a.toInt n h.2 h.1]
+  · simp [h]
+
 end IntOps
